@@ -12,8 +12,19 @@ impl Params {
         // - k >= 3 so the encoded solutions have an exact byte length.
         // - k < n, so the collision bit length is at least 1.
         // - n is a multiple of k + 1, so we have an integer collision bit length.
-        if n.is_multiple_of(8) && (k >= 3) && (k < n) && n.is_multiple_of(k + 1) {
-            Some(Params { n, k })
+        // - n <= 512, so a single BLAKE2b output holds at least one n-bit hash.
+        // - The collision bit length c = n / (k + 1) is at least 8 and c + 1 is at most 25:
+        //   hashes are unpacked in c-bit elements and solutions in (c + 1)-bit elements, and
+        //   this is the range of element widths `expand_array` supports.
+        // - k <= c + 1: a solution consists of 2^k distinct (c + 1)-bit indices, so none
+        //   exists otherwise. This also keeps the solution length within usize.
+        if n.is_multiple_of(8) && (k >= 3) && (k < n) && n.is_multiple_of(k + 1) && (n <= 512) {
+            let c = n / (k + 1);
+            if (c >= 8) && (c + 1 <= 25) && (k <= c + 1) {
+                Some(Params { n, k })
+            } else {
+                None
+            }
         } else {
             None
         }
